@@ -52,8 +52,9 @@ def testBit {k : Nat} (word pos : Word k) : Except Err Bool :=
   if pos.toNat < 2 ^ k then .ok ((word &&& (1#(2 ^ k) <<< pos.toNat)) != 0#(2 ^ k))
   else .error (.pre "test_bit: pos < digits")
 
-/-- `etl::popcount(word)`: on the run-time path a compiler builtin (trusted to count the one bits,
-    DESIGN §3; the loop fallback belongs to C14). -/
+/-- `etl::popcount(word)`, written as what it returns: the number of one bits.  On the run-time path it
+    is a compiler builtin (trusted, DESIGN §3); the portable loop of the constant-evaluated path is
+    modelled as code by property C14 and proved to return this number (`C17.Props.popcount_code`). -/
 def popcount {k : Nat} (word : Word k) : Nat := (List.range (2 ^ k)).countP (fun j => word.getLsbD j)
 
 /-! ### the private constants of basic_bitset -/
